@@ -116,6 +116,9 @@ var failClasses = []failClass{
 	{"range-two-vars-indexless:let", `{{ range zza, zzb := plain }}{{ end }}`, true, true},
 	{"range-two-vars-indexless:empty-with-else", `{{ range zza, zzb := plain0 }}{{ else }}{{ end }}`, true, true},
 	{"invalid-value-piped-into-placeholder:go-func", `{{ item.M.absent | gofn(_, 1) }}`, true, true},
+	{"arg-kind:interface-with-methods", `{{ strfn(n) }}`, true, true},
+	{"arg-kind:interface-with-methods:piped", `{{ s | strfn }}`, true, true},
+	{"arg-count:piped-into-func-without-parameters", `{{ s | nofn }}`, true, true},
 	{"invalid-value-piped-into-placeholder:go-func-variadic", `{{ item.M.absent | vfn(1, _) }}`, true, true},
 	{"range-two-vars-indexless:assign", `{{ zza, zzb := 1, 2 }}{{ range zza, zzb = plain }}{{ end }}`, true, true},
 	{"underscore-without-piped-value:after-failed-pipe", `{{ try }}{{ s | repeat(zzNope) }}{{ end }}{{ upper(_) }}`, true, true},
